@@ -352,9 +352,16 @@ func (act *activation) branch(b *ssa.BasicBlock, a *alt, ins *ssa.If, edgeOut ma
 		}
 		for _, at := range a.atoms {
 			tm := e.T.Get(at)
-			if tm.Op == "boolvia" && tm.Args[1] == ct {
+			if tm.Op != "boolvia" {
+				continue
+			}
+			eb, eneg := tm.Args[1], false
+			if e.T.Op(eb) == "not" {
+				eb, eneg = e.T.Args(eb)[0], true
+			}
+			if eb == ct {
 				tA, fA := e.T.Mk("T", tm.Args[0]), e.T.Mk("F", tm.Args[0])
-				if e.T.Op(c) == "not" {
+				if (e.T.Op(c) == "not") != eneg {
 					pos, neg = append(pos, fA), append(neg, tA)
 				} else {
 					pos, neg = append(pos, tA), append(neg, fA)
